@@ -159,6 +159,25 @@ def coverage_world(seed, kinds, annotated=False):
             cur += 400
             cover2(rng.randint(3000, 6000), 300, 1000)
             end = cur
+        elif kind == "two_gene_bridge":
+            # two annotated genes 49 kb apart, 30 reads on each, and ONE read spliced across both: the cluster is cut between the genes, the
+            # bridging alignment is seen from both sub-regions, each of which knows one of the genes only
+            from vlib.world import Gene, Transcript
+            gl = [(start, start + 500), (start + 1000, start + 1400), (start + 2000, start + 2600)]
+            gr = [(start + 49000, start + 49500), (start + 50000, start + 50400), (start + 51000, start + 51600)]
+            for gid, ex in (("GL%d" % len(clusters), gl), ("GR%d" % len(clusters), gr)):
+                g_ = Gene(gid, "chr1", "+")
+                g_.transcripts.append(Transcript(gid + ".t1", gid, "chr1", "+", ex, True, "bridged-pair"))
+                for intr in g_.transcripts[0].introns:
+                    w.plant_sites("chr1", intr, "+")
+                w.genes.append(g_)
+                for k in range(30):
+                    r = w.make_read("chr1", [(ex[0][0] + k % 7, ex[0][1]), ex[1], (ex[2][0], ex[2][1] - k % 5)], truth={"cluster": len(clusters), "kind": kind})
+                    names.append(r.name)
+            w.plant_sites("chr1", (gl[2][1] + 1, gr[0][0] - 1), "+")
+            r = w.make_read("chr1", [(gl[0][0] + 5, gl[0][1])] + gl[1:] + gr[:2] + [(gr[2][0], gr[2][1] - 10)], truth={"cluster": len(clusters), "kind": kind, "class": "alignment-over-two-genes"})
+            names.append(r.name)
+            end = gr[2][1]
         elif kind == "gene_valley":
             # a four-exon gene with a 36-kb middle intron: pile-ups over exons 1-2 and 3-4, ONE full-length read bridging the
             # coverage-1 stretch (processed in both sub-regions), which also has a secondary alignment upstream of the cluster
@@ -291,7 +310,7 @@ def coverage_world(seed, kinds, annotated=False):
     if annotated:
         # a few genes under the clusters so that reads are processed by the genic branch
         for ci, c in enumerate(clusters):
-            if ci % 2 == 0 and c["end"] - c["start"] > 1500 and c["kind"] != "mapq_grid":
+            if ci % 2 == 0 and c["end"] - c["start"] > 1500 and c["kind"] not in ("mapq_grid", "two_gene_bridge"):
                 g, _ = w.make_gene("G%d" % ci, "chr1", c["start"] + 50, "+", n_exons=3, n_iso=1, exon_len=(150, 250),
                                    intron_len=(200, 300))
                 genes_under.append(g.id)
@@ -406,8 +425,8 @@ def run(chk, scratch):
                 "tuples where the cluster was split into >=2 regions or fell into the single-bin case")
     n_inproc = 40 if thorough else 6
     n_cli = 10 if thorough else 2
-    kind_sets = [["pile1bin", "valleys", "small", "lowmapq_spliced"], ["valleys_tail", "long_sparse", "gene_valley", "lowmapq_spliced", "no_match_spliced"], ["pile2bins", "bridged", "valleys", "no_match_spliced", "neighbour_in_bin"],
-                 ["valleys_tail", "pile1bin", "neighbour_in_bin"], ["long_sparse", "valleys", "small"], ["bridged", "valleys_tail", "neighbour_in_bin"]]
+    kind_sets = [["pile1bin", "valleys", "small", "lowmapq_spliced"], ["valleys_tail", "long_sparse", "gene_valley", "lowmapq_spliced", "no_match_spliced", "two_gene_bridge"], ["pile2bins", "bridged", "valleys", "no_match_spliced", "neighbour_in_bin"],
+                 ["valleys_tail", "pile1bin", "neighbour_in_bin", "two_gene_bridge"], ["long_sparse", "valleys", "small", "two_gene_bridge"], ["bridged", "valleys_tail", "neighbour_in_bin"]]
     jobs = []
     worlds = {}
     for i in range(n_inproc):
@@ -505,8 +524,14 @@ def run(chk, scratch):
         chk.note(n=n)
         total_reads += n
         dup = [k for k, c in Counter(b.raw for b in bed).items() if c > 1]
+        two_gene = {r_.name for r_ in w.reads if r_.truth.get("class") == "alignment-over-two-genes"}
+        dup_known = [k for k in dup if k.split("\t")[3] in two_gene]
+        dup = [k for k in dup if k not in dup_known]
         if dup:
             chk.violation("identical-records:bed", "%s: %d BED records occur more than once, e.g. %s" % (desc, len(dup), dup[0][:120]), wit)
+        if dup_known:
+            chk.violation("identical-records:bed:alignment-over-two-genes-seen-from-two-regions", "%s: the alignment spliced across two genes 49 kb apart is "
+                          "printed twice: %s" % (desc, dup_known[0][:160]), wit)
         exp, cats = expected_reads(w)
         if sum(1 for _ in bed_ids) != len(exp) and not any(v[0].startswith("reads-lost") for v in chk.violations):
             chk.violation("distinct-read-count:bed", "%s: %d distinct reads in BED, %d expected" % (desc, len(bed_ids), len(exp)), wit)
